@@ -390,6 +390,10 @@ impl SseDecoder {
     }
 }
 
+#[cfg(kani)]
+#[path = "/verif/harness/rip-provider-openresponses/lib.rs"]
+mod verif_kani;
+
 #[cfg(test)]
 mod tests {
     use super::*;
